@@ -139,6 +139,34 @@ def build(tier, seed):
         return core.discharged("shadow-execution", queries=n)
     obs.append(Ob("C18.predicate", "finite", FN[1:2], predicate, "the rule applies exactly to U3 and controlled U3 among all built-in gates with 0..2 controls"))
 
+    def wrapped_u3():
+        """whatever the rule does to a U3 hidden inside other wrappers (dagger, power, dagger of controlled ...) must keep the action up to a global phase -
+        either by leaving the operation alone or by a correct decomposition"""
+        L = circ_m.Layer()
+        th, ph, la = _angles()
+        num = (trig.Poly.const(0.5), trig.Poly.const(-1.25), trig.Poly.const(2.0))
+        u_sym, u_num = L.gate("U3", th, ph, la), L.gate("U3", *num)
+        pool = {"U3.dagger": (u_sym.dagger, (0,)), "U3.dagger.dagger": (u_sym.dagger.dagger, (1,)), "U3.power(2)": (u_num.power(2), (0,)), "U3.power(3).dagger": (u_num.power(3).dagger, (1,)),
+                "RZ": (L.gate("RZ", th), (0,)), "RY.dagger": (L.gate("RY", th).dagger, (1,))}
+        q = 0
+        for name, (g, qs) in pool.items():
+            d, o, out = decomposed(L, g(*qs), 2)
+            ok = False
+            for gp in (trig.Poly.const(1), _phase(ph, la, -1), _phase(ph, la, 1), _phase(num[1], num[2], -1), _phase(num[1], num[2], -2), _phase(num[1], num[2], -3),
+                       _phase(num[1], num[2], 3)):
+                v, info = mcheck.decide_equal(d, o * gp, use_z3=False)
+                q += 1
+                if v == "equal":
+                    ok = True
+                    break
+            if not ok:
+                code = _native("op = U3(th, ph, la).dagger(0)" if "dagger" in name else "op = U3(0.5, -1.25, 2.0).power(2)(0)", "np.allclose(dec, g * orig, atol=1e-9)")({})
+                return core.refuted("ring-normal-form", f"{name}: after applying the rule the circuit {[str(x) for x in out.operations]} no longer acts as the original up to a global phase",
+                                    replay=rp.replay_dict(code, "equal up to one global phase"))
+        return core.discharged("ring-normal-form", queries=q, sample={"gates": list(pool)})
+    obs.append(Ob("C18.wrapped_u3", "finite", FN, wrapped_u3,
+                  "U3 inside dagger / power wrappers (and look-alike rotations): the rule either leaves the operation alone or replaces it by an equivalent sequence, all angles"))
+
     obs.append(vprop.enum_ob("C18.chain.enum", FN[3:], _cases_chain, _check_chain,
                              "bounded: every rule list of length <= 3 over a pool of 4 rewrite rules on every operation list of length <= 2: result equals the "
                              "reference fold (rules in the given order on the previous rule's output, unmatched operations kept in place); empty rule list is the identity"))
